@@ -146,9 +146,9 @@ def expected_observation(spec):
 
 
 def edits(spec, seed=0):
-    import productmd.images as pi
+    from mc.models import ids
     out = []
-    alph = [("type", list(pi.SUPPORTED_IMAGE_TYPES)), ("format", list(pi.SUPPORTED_IMAGE_FORMATS)),
+    alph = [("type", list(ids.IMAGE_TYPES_DOC)), ("format", list(ids.IMAGE_FORMATS_DOC)),
             ("volume_id", [None, "Fedora 23 x86_64", "Völ \"q\""]), ("implant_md5", [None, "0123456789abcdef0123456789abcdef"]),
             ("checksums", [dict(CHK1), dict(CHK3)]), ("size", [1, 2 ** 32, 2 ** 33 + 1, 1000.5]),
             ("mtime", [0, 1451606400, 2 ** 33, 1556179200.75]),        # (floats: refused today; if ever accepted they must cycle)
@@ -186,8 +186,7 @@ def edits(spec, seed=0):
             if [v, a, i] not in spec["cells"] and count < 3:
                 out.append(["alias", i, v, a])
     for v, a, i in spec["cells"]:
-        if len(spec["cells"]) > 1:
-            out.append(["unplace", v, a, i])
+        out.append(["unplace", v, a, i])                  # (also the last one: a manifest without images)
     for h in (None, "1.1", "1.2"):
         if spec["header"] != h:
             out.append(["hdr", h])
